@@ -45,10 +45,11 @@ function resize(w, h) {
 }
 
 function clearScreen(fg, bg) {
-  if (fg) {
+  // (0 is black, not "no colour")
+  if (fg !== undefined && fg >= 0) {
     term.style.color = intToHex(fg);
   }
-  if (bg) {
+  if (bg !== undefined && bg >= 0) {
     term.style.backgroundColor = intToHex(bg);
   }
 
